@@ -237,6 +237,7 @@ class ImplWorld:
         self.outer_first = False        # interpreters follow the outer-first variation
         self.tick_clock = False         # interpreters get a TickClock, which the ops do not set
         self.running_clock = False      # interpreters get a playing SimulatedClock over a scripted real time
+        self.prop_instance = False      # property statecharts are bound as ready-made interpreters (deprecated form)
         self.real = 0
         self.deliveries = None          # when a list: global order in which the recording callables were called
         self.log = Log()
@@ -318,7 +319,13 @@ class ImplWorld:
                 ctx.append([k, {'unsupported': repr(v)[:80]}])
         ctx.sort(key=lambda p: p[0])
         t = it.time
-        return {'config': list(it.configuration), 'ctx': ctx, 'time': t,
+        # (`configuration` is computed afresh at every reading: what a client does to the list it was given is
+        #  nobody's business)
+        given = it.configuration
+        config = list(given)
+        if isinstance(given, list):
+            given.clear()
+        return {'config': config, 'ctx': ctx, 'time': t,
                 'final': bool(it.final), 'legal': oracles.legal(it.statechart, list(it.configuration)) is True,
                 'unsupported': False}
 
@@ -343,10 +350,15 @@ class ImplWorld:
         j = {'time': ms.time, 'steps': [self.micro_json(slot, m) for m in ms.steps]}
         # what the accessors of the MacroStep itself say (must be the aggregation of its micro steps)
         try:
-            agg = {'entered': list(ms.entered_states), 'exited': list(ms.exited_states),
-                   'sent': [enc_event(e) for e in ms.sent_events],
-                   'transitions': [self.tid(slot, t) for t in ms.transitions],
-                   'event': enc_event(ms.event)}
+            agg = {}
+            for key, given in (('entered', ms.entered_states), ('exited', ms.exited_states), ('sent', ms.sent_events),
+                               ('transitions', ms.transitions)):
+                agg[key] = list(given)
+                if isinstance(given, list):
+                    given.clear()       # (a list of the client's own: the macro step keeps what it says)
+            agg['sent'] = [enc_event(e) for e in agg['sent']]
+            agg['transitions'] = [self.tid(slot, t) for t in agg['transitions']]
+            agg['event'] = enc_event(ms.event)
         except Exception as e:      # noqa
             agg = {'error': repr(e)[:200]}
         exp = {'entered': [s for m in j['steps'] for s in m['entered']],
@@ -584,7 +596,18 @@ class ImplWorld:
             # the interpreter the listener will drive (captured here: no private attribute is read)
             created.append(Interpreter(statechart, clock=clock, evaluator_klass=make_evaluator(world, j)))
             return created[-1]
-        l = self.slots[i].bind_property_statechart(self.charts[ci], interpreter_klass=klass)
+        if self.prop_instance:
+            # the form of sismic < 1.4: a ready-made interpreter (born at the time the monitored one shows)
+            import warnings
+            from sismic.clock import SimulatedClock
+            c0 = SimulatedClock()
+            c0.time = self.slots[i].time
+            klass(self.charts[ci], clock=c0)
+            with warnings.catch_warnings():
+                warnings.simplefilter('ignore')
+                l = self.slots[i].bind_property_statechart(created[-1])
+        else:
+            l = self.slots[i].bind_property_statechart(self.charts[ci], interpreter_klass=klass)
         prop = created[-1]
         self._new_slot(prop)
         lid = self._add_listener(i, ('property', j), l)
@@ -651,6 +674,7 @@ def run_case(case, charts, clock_mover=False):
         w.deliveries = []
     w.tick_clock = bool(case.get('tick_clock'))
     w.outer_first = bool(case.get('outer_first'))
+    w.prop_instance = bool(case.get('prop_instance'))
     obs = []
     if case.get('running_clock'):
         import sismic.clock.clock as cc
